@@ -136,13 +136,18 @@ func runC08(p *an.Prog, r *an.Run, tier string) {
 
 	// ---- candidates: the slice appended with registry entries
 	var candAppend *ssa.Call
-	for _, c := range an.Calls(rh, false) {
-		if b, ok := c.Common().Value.(*ssa.Builtin); ok && b.Name() == "append" {
-			if sl, ok := c.Common().Args[0].Type().Underlying().(*types.Slice); ok && isNamedType(sl.Elem(), "hostService") {
-				candAppend, _ = c.(*ssa.Call)
+	cfn := rh // the function holding the candidate loop: requestHosts itself or a helper it was moved to
+	for _, rf := range regionFuncs(p, rh) {
+		for _, c := range an.Calls(rf, false) {
+			if b, ok := c.Common().Value.(*ssa.Builtin); ok && b.Name() == "append" {
+				if sl, ok := c.Common().Args[0].Type().Underlying().(*types.Slice); ok && isNamedType(sl.Elem(), "hostService") {
+					candAppend, _ = c.(*ssa.Call)
+					cfn = rf
+				}
 			}
 		}
 	}
+	r.Analysed(an.FuncName(cfn))
 	if candAppend == nil {
 		r.Undec("skip", name, rh.Pos(), "the candidate list (append of hostService) was not found")
 		return
@@ -151,7 +156,7 @@ func runC08(p *an.Prog, r *an.Run, tier string) {
 	// ---- bound
 	bad = nil
 	bounded := false
-	an.AllInstrs(rh, func(in ssa.Instruction) {
+	an.AllInstrs(cfn, func(in ssa.Instruction) {
 		switch x := in.(type) {
 		case *ssa.If:
 			rel, ok := an.NormCond(x.Cond)
@@ -162,7 +167,7 @@ func runC08(p *an.Prog, r *an.Run, tier string) {
 				rel = rel.Swap()
 			}
 			s, isLen := an.LenOf(rel.L)
-			if !isLen || N == nil || rel.R != N {
+			if !isLen || N == nil || p.Resolve(rel.R) != N {
 				return
 			}
 			if sl, ok := s.Type().Underlying().(*types.Slice); !ok || !(isNamedType(sl.Elem(), "hostService") || isNamedType(sl.Elem(), "Node")) {
@@ -180,15 +185,15 @@ func runC08(p *an.Prog, r *an.Run, tier string) {
 			}
 			if stop >= 0 && inLoop(in) {
 				// from the stop edge no further candidate may be appended
-				if pathFromBlock(rh, x.Block().Succs[stop], nil, func(i2 ssa.Instruction) bool { return i2 == ssa.Instruction(candAppend) }) == nil {
+				if pathFromBlock(cfn, x.Block().Succs[stop], nil, func(i2 ssa.Instruction) bool { return i2 == ssa.Instruction(candAppend) }) == nil {
 					// and the test happens after each append (same iteration)
-					if an.PathAvoiding(rh, candAppend, func(i2 ssa.Instruction) bool { return i2 == ssa.Instruction(x) }, func(i2 ssa.Instruction) bool { return i2 == ssa.Instruction(candAppend) }, nil) == nil {
+					if an.PathAvoiding(cfn, candAppend, func(i2 ssa.Instruction) bool { return i2 == ssa.Instruction(x) }, func(i2 ssa.Instruction) bool { return i2 == ssa.Instruction(candAppend) }, nil) == nil {
 						bounded = true
 					}
 				}
 			}
 		case *ssa.Slice:
-			if x.High != nil && N != nil && x.High == N {
+			if x.High != nil && N != nil && p.Resolve(x.High) == N {
 				if sl, ok := x.X.Type().Underlying().(*types.Slice); ok && (isNamedType(sl.Elem(), "hostService") || isNamedType(sl.Elem(), "Node")) {
 					bounded = true
 				}
@@ -218,8 +223,8 @@ func runC08(p *an.Prog, r *an.Run, tier string) {
 			}
 			continue
 		}
-		if _, isMake := lk.X.(*ssa.MakeMap); isMake && c.Succ == 1 && dk.HasFieldNamed("Node", "ID") {
-			skipMap = lk.X
+		if mm, isMake := p.Resolve(lk.X).(*ssa.MakeMap); isMake && c.Succ == 1 && dk.HasFieldNamed("Node", "ID") {
+			skipMap = mm
 			okSkipGuard = true
 		}
 	}
@@ -622,99 +627,183 @@ func checkActiveHosts(p *an.Prog, r *an.Run, d *types.Named, m *ssa.Function, ex
 	}
 	host, knd, seen := filt{}, filt{}, filt{}
 	var kindBypassOK bool
-	an.AllInstrs(loopFn, func(in ssa.Instruction) {
-		iff, ok := in.(*ssa.If)
-		if !ok {
-			return
-		}
-		b := iff.Block()
-		fence := func(skipSucc int) bool {
-			// from the skip edge the append must not be reachable within the same iteration, and the test must dominate the append
-			return pathFromBlock(loopFn, b.Succs[skipSucc], isNext, isApp) == nil
-		}
-		// IsHost
-		v, w := iff.Cond, true
+	// classify a condition: which filter it is, and whether the record is kept when the condition is true
+	classify := func(home *ssa.Function, cond ssa.Value) (class string, keepWhenTrue bool, ok bool) {
+		v, w := cond, true
 		for {
-			if u, ok := v.(*ssa.UnOp); ok && u.Op == token.NOT {
+			if u, isNot := v.(*ssa.UnOp); isNot && u.Op == token.NOT {
 				v, w = u.X, !w
 				continue
 			}
 			break
 		}
 		if fieldLoadOf(v, "", "IsHost") || isFieldNamed(v, "IsHost") {
-			skip := 1 // skip when IsHost false
-			if !w {
-				skip = 0
-			}
-			if fence(skip) && b.Dominates(app.Block()) {
-				host.found = true
-			} else {
-				host.why = "the IsHost test at " + p.Pos(iff.Pos()) + " does not fence the append"
-			}
-			return
+			return "host", w, true
 		}
-		rel, ok := an.NormCond(iff.Cond)
-		if !ok {
-			return
+		rel, isRel := an.NormCond(cond)
+		if !isRel {
+			return "", false, false
 		}
 		switch rel.Kind {
 		case "string":
 			isKindField := func(x ssa.Value) bool { return fieldLoadOf(x, "", "Kind") || isFieldNamed(x, "Kind") }
 			isKindPrm := func(x ssa.Value) bool { return isPlainParam(p, x, kindPrm) }
 			if (isKindField(rel.L) && isKindPrm(rel.R)) || (isKindField(rel.R) && isKindPrm(rel.L)) {
-				skip := -1
 				switch rel.Op {
 				case token.NEQ:
-					skip = 0
+					return "kind", false, true
 				case token.EQL:
-					skip = 1
-				}
-				if skip >= 0 && fence(skip) {
-					knd.found = true
-				} else {
-					knd.why = "the kind comparison at " + p.Pos(iff.Pos()) + " does not fence the append"
-				}
-				// bypass only when the query is empty
-				for _, c := range an.ControllingIfs(b) {
-					if r2, ok := an.BranchRel(c.If, c.Succ); ok && r2.Kind == "string" && r2.Op == token.NEQ {
-						if s, ok := an.ConstString(r2.R); ok && s == "" && isKindPrm(r2.L) {
-							kindBypassOK = true
-						}
-					}
-				}
-				if b.Dominates(app.Block()) {
-					kindBypassOK = true // unconditional comparison is stricter than required only for empty queries; flagged below
+					return "kind", true, true
 				}
 			}
 		case "time":
 			rr := rel
-			isLS := func(x ssa.Value) bool { return p.Derives(0, x).HasFieldNamed("Node", "LastSeen") }
+			isLS := func(x ssa.Value) bool { return p.DerivesIn(m, 0, x).HasFieldNamed("Node", "LastSeen") }
 			if !isLS(rr.L) {
 				rr = rr.Swap()
 			}
 			if !isLS(rr.L) {
-				return
+				return "", false, false
 			}
-			dd := p.Derives(0, rr.R)
+			dd := p.DerivesIn(m, 0, rr.R)
 			okWin := dd.CallTo(func(f *types.Func) bool { return an.IsFunc(f, "time", "Now") }) != nil
 			okK := false
 			for _, n := range dd.Nodes {
-				if k, ok := an.ConstInt(n); ok && k == -exp {
+				if k, isK := an.ConstInt(n); isK && k == -exp {
 					okK = true
 				}
 			}
-			// fresh iff LastSeen > since: skip edge is NOT that
-			skip := -1
+			if !okWin || !okK {
+				seen.why = "a recency comparison is not against now - ExpireInterval"
+				return "", false, false
+			}
 			switch rr.Op {
 			case token.GTR:
-				skip = 1
+				return "seen", true, true
 			case token.LEQ:
-				skip = 0
+				return "seen", false, true
+			default:
+				seen.why = "the recency test is 'LastSeen " + rr.Op.String() + " now - ExpireInterval', expected '>'"
 			}
-			if skip >= 0 && okWin && okK && fence(skip) && b.Dominates(app.Block()) {
-				seen.found = true
-			} else {
-				seen.why = "the recency test at " + p.Pos(iff.Pos()) + " is not 'LastSeen > now - ExpireInterval' fencing the append (op " + rr.Op.String() + ")"
+		}
+		return "", false, false
+	}
+	kindQueryGuard := func(b *ssa.BasicBlock) bool {
+		for _, c := range an.ControllingIfs(b) {
+			if r2, isRel := an.BranchRel(c.If, c.Succ); isRel && r2.Kind == "string" && r2.Op == token.NEQ {
+				if sv, isS := an.ConstString(r2.R); isS && sv == "" && isPlainParam(p, r2.L, kindPrm) {
+					return true
+				}
+			}
+		}
+		return false
+	}
+	mark := func(class string, okFence bool, where token.Pos, bypassOK bool) {
+		f := map[string]*filt{"host": &host, "kind": &knd, "seen": &seen}[class]
+		if okFence {
+			f.found = true
+			if class == "kind" && bypassOK {
+				kindBypassOK = true
+			}
+		} else if f.why == "" {
+			f.why = "the " + class + " test at " + p.Pos(where) + " does not fence the result"
+		}
+	}
+	an.AllInstrs(loopFn, func(in ssa.Instruction) {
+		iff, isIf := in.(*ssa.If)
+		if !isIf {
+			return
+		}
+		b := iff.Block()
+		fence := func(skipSucc int) bool {
+			return pathFromBlock(loopFn, b.Succs[skipSucc], isNext, isApp) == nil
+		}
+		if class, keep, ok := classify(loopFn, iff.Cond); ok {
+			skip := 0
+			if keep {
+				skip = 1
+			}
+			dom := b.Dominates(app.Block())
+			mark(class, fence(skip) && (dom || class == "kind"), iff.Pos(), kindQueryGuard(b) || dom)
+			return
+		}
+		// a predicate helper: if keep(n, kind, since) { append }
+		v, w := iff.Cond, true
+		for {
+			if u, isNot := v.(*ssa.UnOp); isNot && u.Op == token.NOT {
+				v, w = u.X, !w
+				continue
+			}
+			break
+		}
+		call, isCall := v.(*ssa.Call)
+		if !isCall {
+			return
+		}
+		h := call.Call.StaticCallee()
+		if h == nil || len(h.Blocks) == 0 || !p.InRepo(h) || h.Signature.Results().Len() != 1 {
+			return
+		}
+		falseSucc := 1
+		if !w {
+			falseSucc = 0
+		}
+		if !fence(falseSucc) || !b.Dominates(app.Block()) {
+			return
+		}
+		// inside the helper: which filters are necessary for a truthy result
+		var truthy []*ssa.Return
+		an.AllInstrs(h, func(x ssa.Instruction) {
+			if ret, isRet := x.(*ssa.Return); isRet {
+				if c, isC := ret.Results[0].(*ssa.Const); isC && c.Value != nil && c.Value.String() == "false" {
+					return
+				}
+				truthy = append(truthy, ret)
+			}
+		})
+		isTruthy := func(x ssa.Instruction) bool {
+			for _, t := range truthy {
+				if x == ssa.Instruction(t) {
+					return true
+				}
+			}
+			return false
+		}
+		for _, class := range []string{"host", "kind", "seen"} {
+			all := len(truthy) > 0
+			bypass := false
+			for _, t := range truthy {
+				okT := false
+				// the returned expression itself
+				if c2, keep, ok := classify(h, t.Results[0]); ok && c2 == class && keep {
+					okT = true
+				}
+				an.AllInstrs(h, func(x ssa.Instruction) {
+					j, isIf := x.(*ssa.If)
+					if !isIf {
+						return
+					}
+					c2, keep, ok := classify(h, j.Cond)
+					if !ok || c2 != class {
+						return
+					}
+					skip := 0
+					if keep {
+						skip = 1
+					}
+					if pathFromBlock(h, j.Block().Succs[skip], nil, isTruthy) == nil && (class == "kind" || j.Block().Dominates(t.Block())) {
+						okT = true
+						if class == "kind" && (kindQueryGuard(j.Block()) || j.Block().Dominates(t.Block())) {
+							bypass = true
+						}
+					}
+				})
+				if !okT {
+					all = false
+				}
+			}
+			if all {
+				mark(class, true, iff.Pos(), bypass)
 			}
 		}
 	})
